@@ -314,6 +314,14 @@ class History:
             if not o.private: continue
             for ty, blob in o.blobs.items():
                 if len(blob) >= 32: seen.setdefault(bytes(blob[:16]), []).append((s.ck.ATTR.get(ty, hex(ty)), hashlib.sha256(blob).hexdigest()[:16]))
+        # every private object in the directory, whether or not the model knows it and whether or not the API can still read it: each non-empty byte string must be a blob that
+        # decrypts under the PIN-derived key (a value the library stored as it was makes the object unreadable through the API -- which must not hide it from this check)
+        for tg, (do_, v_, probs_) in disk.items():
+            if not do_.private: continue
+            part.count('private_objects_decoded')
+            for p_ in probs_:
+                an = p_.split(' ')[0]; st_ = do_.raw.get(s.ck[an]) if an in s.ck.K else None
+                s.V(f'at-rest|{s.backend},{an}|private-byte-string-not-encrypted-under-the-master-key', p_, stored_bytes=len(st_) if isinstance(st_, (bytes, bytearray)) else None, known_to_model=tg in s.M, where=where)
         for iv, users in seen.items():
             part.count('ivs_checked')
             if len(users) > 1: s.V(f'iv|{s.backend}|shared-by-two-stored-blobs', 'two stored blobs share an IV', users=[u[0] for u in users], where=where)
@@ -324,7 +332,6 @@ class History:
             if not o.alive: continue
             if tag not in disk: s.V(f'decoder|{s.backend},{o.cls}|object-not-on-disk', 'a live private token object is not found in the directory by the decoder', path=o.path, where=where); continue
             do, v, probs = disk[tag]
-            for p in probs: s.V(f'decoder|{s.backend}|private-value-does-not-decrypt', p, path=o.path, where=where)
             if not do.private: s.V(f'{o.path}|{s.backend},{o.cls}|stored-as-public', 'an object the API calls private is stored with CKA_PRIVATE false', where=where); continue
             try: api = s.L.read(s.S, o.h)
             except ApiError as e: part.observe('object unreadable through the API (outside C06)', {'class': o.cls, 'error': str(e)}); continue
